@@ -301,7 +301,10 @@ class WhileToFor:
             args = [bound] if isinstance(start, ast.Constant) and start.value == 0 else [copy.deepcopy(start), bound]
             it = ast.Call(func=ast.Name(id="range", ctx=ast.Load()), args=args, keywords=[])
             return ast.copy_location(ast.For(target=ast.Name(id=i, ctx=ast.Store()), iter=it, body=w.body[:-1] or [ast.Pass()], orelse=[], type_comment=None), w)
-        # B: r = N ... while r > 0: body; r -= 1     (r not otherwise used)
+        # B: r = N ... while r > 0: body with one `r -= 1` at its top level (first or last)     (r not otherwise used)
+        if isinstance(op, ast.Gt) and isinstance(a, ast.Name) and isinstance(b, ast.Constant) and b.value == 0 and _is_incr(w.body[0], a.id, -1) and len(w.body) > 1 \
+                and not _is_incr(w.body[-1], a.id, -1):
+            w = ast.copy_location(ast.While(test=w.test, body=w.body[1:] + [w.body[0]], orelse=[]), w)
         if isinstance(op, ast.Gt) and isinstance(a, ast.Name) and isinstance(b, ast.Constant) and b.value == 0 and _is_incr(w.body[-1], a.id, -1):
             r = a.id
             init = next((s for s in reversed(before) if isinstance(s, ast.Assign) and len(s.targets) == 1 and isinstance(s.targets[0], ast.Name) and s.targets[0].id == r), None)
@@ -552,6 +555,20 @@ class Desugar(ast.NodeTransformer):
         it = node.iter
         if isinstance(it, ast.Call) and not node.orelse:
             fn = ast.unparse(it.func)
+            # for v in list(X) / tuple(X)  with X an iteration helper over pure arguments  ->  for v in X
+            if fn in ("list", "tuple") and len(it.args) == 1 and not it.keywords and isinstance(it.args[0], ast.Call) \
+                    and ast.unparse(it.args[0].func) in ("product", "itertools.product", "range", "zip", "enumerate") \
+                    and not any(isinstance(x, ast.Call) and ast.unparse(x.func) not in ("range", "len", "product", "itertools.product", "zip", "enumerate") for x in ast.walk(it.args[0])):
+                node.iter = it = it.args[0]
+                fn = ast.unparse(it.func)
+            # for cell in product(A, B)  ->  for _i in A: for _j in B: cell = (_i, _j); ..
+            if fn in ("product", "itertools.product") and len(it.args) == 2 and not it.keywords and isinstance(node.target, ast.Name) and not _has_jump(node.body):
+                k = next(_counter)
+                a, b = ast.Name(id=f"_pi{k}", ctx=ast.Store()), ast.Name(id=f"_pj{k}", ctx=ast.Store())
+                bind = ast.copy_location(ast.Assign(targets=[node.target], value=ast.Tuple(elts=[ast.Name(id=a.id, ctx=ast.Load()), ast.Name(id=b.id, ctx=ast.Load())], ctx=ast.Load()),
+                                                    lineno=node.lineno), node)
+                inner = ast.copy_location(ast.For(target=b, iter=it.args[1], body=[bind] + node.body, orelse=[], type_comment=None), node)
+                return ast.copy_location(ast.For(target=a, iter=it.args[0], body=[inner], orelse=[], type_comment=None), node)
             # for i, j in product(A, B)
             if fn in ("product", "itertools.product") and len(it.args) == 2 and not it.keywords and isinstance(node.target, ast.Tuple) and len(node.target.elts) == 2 \
                     and not _has_jump(node.body):
